@@ -214,6 +214,9 @@ class TFFT:
     @staticmethod
     def rfft(x, n, dim, norm):
         assert isinstance(x, TFrames) and dim == 1 and norm == 'backward'
+        # the CPU FFT back end (MKL) of the installed torch rejects a batch of zero transforms
+        if decide(_z(x.nf) <= 0):
+            raise RuntimeError('MKL FFT error: Intel oneMKL DFTI ERROR: Inconsistent configuration parameters (batch of 0 transforms)')
         TFFT.last = (x, n)
         return SpecRow(n // 2 + 1)
 
@@ -264,6 +267,8 @@ def configs(tier, seed):
         [(2, 1), (2, 2), (3, 2), (3, 3), (4, 1), (4, 2), (4, 3), (4, 4), (5, 2), (5, 3), (5, 5), (6, 3), (6, 4), (7, 2), (7, 3), (7, 7), (8, 3), (9, 4)]
     # kaldi_shift is documented to matter for centered frames only: causal + kaldi_shift at two grid points
     extra = [((L, S), ('causal', True)) for (L, S) in ((5, 2), (7, 3))]
+    # frame shifts beyond twice the frame length: signals of at least frame_length samples that still yield no frame
+    extra += [((L, S), sk) for (L, S) in ((2, 6), (3, 7)) for sk in (('causal', False), ('centered', False), ('centered', True))]
     for (L, S), (style, kaldi) in list(itertools.product(grid, [('causal', False), ('centered', False), ('centered', True)])) + extra:
         cfgs.append(dict(kind='frames', name='frames L%d S%d %s%s' % (L, S, style, '+kaldi' if kaldi else ''), L=L, S=S, style=style,
                          kaldi=kaldi, NMAX=(3 if tier == 'quick' else 4) * L))
